@@ -12,7 +12,7 @@
      RetryFuture.cancel                  future lock -> executor lock
    Progs is a tuple of sequences over <<"a", lock>> / <<"r", lock>>; Reentrant is the set of re-entrant locks.
 *)
-EXTENDS Naturals, Sequences, FiniteSets, TLC
+EXTENDS LockKit, TLC
 
 CONSTANTS Variant
 
@@ -35,16 +35,11 @@ VARIABLES pos, held
 vars == <<pos, held>>
 T == DOMAIN Progs
 Init == pos = [t \in T |-> 1] /\ held = [t \in T |-> <<>>]
-Owner(l) == {t \in T : \E i \in DOMAIN held[t] : held[t][i] = l}
 Step(t) ==
-  /\ pos[t] <= Len(Progs[t])
-  /\ LET op == Progs[t][pos[t]] IN
-       IF op[1] = "a"
-         THEN /\ (Owner(op[2]) = {} \/ (Owner(op[2]) = {t} /\ op[2] \in Reentrant))
-              /\ held' = [held EXCEPT ![t] = Append(@, op[2])]
-         ELSE held' = [held EXCEPT ![t] = SelectSeq(@, LAMBDA x : x # op[2])]
+  /\ CanStep(Progs, Reentrant, pos, held, t)
+  /\ held' = [held EXCEPT ![t] = HeldAfter(Progs, pos, held, t)]
   /\ pos' = [pos EXCEPT ![t] = @ + 1]
-Done == \A t \in T : pos[t] > Len(Progs[t])
+Done == AllDone(Progs, pos)
 Next == (\E t \in T : Step(t)) \/ (Done /\ UNCHANGED vars)
 Spec == Init /\ [][Next]_vars
 \* deadlock = TLC's own deadlock detection (Done stutters, so only real deadlocks are reported)
